@@ -56,6 +56,9 @@ ASSUMPTIONS = [
     "fresh interpreter = process forked from one that has only imported pde (no py-pde call made); a subset of the "
     "histories is additionally run in a really new interpreter",
     "MPI conditions (_MPIBC._cache_hash), jax/torch backends are not installed: their keys are modelled but not run",
+    "normal_* conditions are generated only together with operators that read just the normal component's ghost cells "
+    "(divergence): with other operators (vector_laplace, vector_gradient, tensor_divergence) the conditions do not "
+    "determine the operator's inputs (the remaining ghost cells are uninitialised memory) - outside the property, as in C03",
 ]
 TRUSTED_EXTRA = ["harness/common/pygraph.py: the serialiser of real objects into model object graphs (my reading of "
                  "which branch of hash_mutable applies; it never calls hash_mutable)"]
@@ -1093,6 +1096,19 @@ def fixed_pairs():
                 "variants": ["class"], "seed": 2})
     out.append({"kind": "req", "a": req({"type": "value", "value": ["f", 1.0]}, op="divergence", rank=1),
                 "b": req({"type": "normal_value", "value": ["f", 1.0]}, op="divergence", rank=1), "variants": ["normal"], "seed": 3})
+    # every ordered pair of condition classes with equal data (rank 0: laplace; rank 1 incl. the normal classes: divergence)
+    k0 = ["value", "derivative", "mixed", "curvature"]
+    k1 = k0 + ["normal_" + k for k in k0]
+    n = 10
+    for kinds, op, rank in ((k0, "laplace", 0), (k1, "divergence", 1)):
+        for ka in kinds:
+            for kb in kinds:
+                if ka == kb:
+                    continue
+                mk = lambda k: dict({"type": k, "value": ["f", 1.0]}, **({"const": ["f", 1.0]} if k.endswith("mixed") else {}))
+                n += 1
+                out.append({"kind": "req", "a": req(mk(ka), op=op, rank=rank), "b": req(mk(kb), op=op, rank=rank),
+                            "variants": ["class-matrix"], "seed": n})
     # B: equal bytes, different dtype
     out.append({"kind": "req", "a": req({"type": "value", "value": ["i", 1]}), "b": req({"type": "value", "value": ["f", 5e-324]}),
                 "variants": ["same_bytes"], "seed": 4})
@@ -1718,9 +1734,9 @@ def history_key(h, res):
 
 def run_histories(ctx):
     rng = ctx.rng
-    n_s = ctx.budget(150, 2400)
-    n_j = ctx.budget(8, 96)
-    n_new = ctx.budget(8, 48)
+    n_s = ctx.budget(150, 1200)
+    n_j = ctx.budget(8, 48)
+    n_new = ctx.budget(8, 32)
     hs = [gen_history(rng, ctx.hist) for _ in range(n_s)] + fixed_histories()
     t0, c0 = time.time(), _cpu()
     res = run_many("harness.c04", "hist_worker", hs, env={"NUMBA_DISABLE_JIT": "1"}, procs=16)
